@@ -954,6 +954,39 @@ func constructors() {
 	p, err = secp256k1.RecoverPoint(lib.MkSC(big.NewInt(5)), 0)
 	bad("RecoverPoint(non x-coordinate)", p, err)
 	R.Class("constructors that must fail and return no object", int64(n))
+	// a constructor that cannot fail returns a valid object for EVERY input: the uniform-bytes map at and around its
+	// exceptional arguments (u = 0, u^2 = 1/11 where the SWU denominator vanishes), in every admissible length and
+	// in the encodings that only reach them after reduction mod p
+	m := 0
+	inv11 := ref.FpInv(big.NewInt(11))
+	us := []*big.Int{new(big.Int), big.NewInt(1), ref.FpNeg(big.NewInt(1))}
+	if sq, ok := ref.FpSqrt(inv11); ok {
+		us = append(us, sq, ref.FpNeg(sq))
+	}
+	for _, u := range us {
+		for _, l := range []int{32, 48, 64} {
+			for _, mult := range []int64{0, 1, 5} { // u, u + p, u + 5p
+				v := new(big.Int).Add(u, new(big.Int).Mul(ref.P, big.NewInt(mult)))
+				if v.BitLen() > 8*l {
+					continue
+				}
+				b := v.FillBytes(make([]byte, l))
+				m++
+				R.T(1)
+				pt := secp256k1.NewIdentityPoint()
+				msg := mc.Safe(func() string {
+					if pt.SetUniformBytes(b) != pt {
+						return "did not return the receiver"
+					}
+					return lib.CheckPoint(pt, ref.MapToCurve(u))
+				})
+				if msg != "" {
+					R.Fail("constructors/SetUniformBytes(exceptional u)", "misc", map[string]any{"bytes": mc.Hex(b), "what": msg}, nil)
+				}
+			}
+		}
+	}
+	R.Class("constructors that cannot fail, at their exceptional arguments", int64(m))
 }
 
 func trunc(s string) string {
